@@ -114,6 +114,133 @@ impl RefBigram {
         }
         s
     }
+    /// Cost contributed by template position `k` to the pair.
+    pub fn cost_at(&self, k: usize, r: usize, l: usize) -> i64 {
+        let rf = if r == 0 {
+            Some("")
+        } else {
+            self.right[r - 1].get(k).map(|x| x.as_str())
+        };
+        let lf = if l == 0 {
+            Some("")
+        } else {
+            self.left[l - 1].get(k).map(|x| x.as_str())
+        };
+        match (rf, lf) {
+            (Some(rf), Some(lf)) => self.cost.get(&(rf.to_string(), lf.to_string())).copied().unwrap_or(0),
+            _ => 0,
+        }
+    }
+
+    /// Reference model of the dual connector's template split: the positions that stay in the
+    /// pre-summed matrix part after eight greedy removals, trying candidates in the order hook H5
+    /// defines for `order_seed` (ascending, then a splitmix64 Fisher-Yates shuffle if the seed is
+    /// non-zero) and keeping the last candidate that does not enlarge
+    /// (#distinct right rows) x (#distinct left rows). Rows are compared the way the connector
+    /// sees them: a feature string that occurs in no cost line on its side is "no feature".
+    pub fn split(&self, order_seed: u64) -> Vec<usize> {
+        let right_known: std::collections::BTreeSet<&str> = self.cost.keys().map(|k| k.0.as_str()).collect();
+        let left_known: std::collections::BTreeSet<&str> = self.cost.keys().map(|k| k.1.as_str()).collect();
+        // interned: 0 = "no feature", otherwise one number per distinct string of the side
+        let norm = |rows: &Vec<Vec<String>>, known: &std::collections::BTreeSet<&str>| -> Vec<Vec<u32>> {
+            let mut ids: BTreeMap<&str, u32> = BTreeMap::new();
+            rows.iter()
+                .map(|row| {
+                    row.iter()
+                        .map(|f| {
+                            if f.is_empty() || known.contains(f.as_str()) {
+                                let next = ids.len() as u32 + 1;
+                                *ids.entry(f.as_str()).or_insert(next)
+                            } else {
+                                0
+                            }
+                        })
+                        .collect()
+                })
+                .collect()
+        };
+        let right = norm(&self.right, &right_known);
+        let left = norm(&self.left, &left_known);
+        let mut m: std::collections::BTreeSet<usize> = (0..self.k).collect();
+        for _ in 0..8 {
+            let mut order: Vec<usize> = m.iter().copied().collect();
+            let mut x = order_seed;
+            if x != 0 {
+                for i in (1..order.len()).rev() {
+                    x = x.wrapping_add(0x9E37_79B9_7F4A_7C15);
+                    let mut z = x;
+                    z = (z ^ (z >> 30)).wrapping_mul(0xBF58_476D_1CE4_E5B9);
+                    z = (z ^ (z >> 27)).wrapping_mul(0x94D0_49BB_1331_11EB);
+                    z ^= z >> 31;
+                    let j = (z % (i as u64 + 1)) as usize;
+                    order.swap(i, j);
+                }
+            }
+            let mut candidate = 0;
+            let mut min_size = left.len() * right.len();
+            for &trial in &order {
+                // (only the number of distinct rows is used: no iteration order involved)
+                let distinct = |rows: &Vec<Vec<u32>>| -> usize {
+                    let mut set = std::collections::HashSet::new();
+                    for row in rows {
+                        let v: Vec<u32> = m.iter().filter(|&&i| i != trial).filter_map(|&i| row.get(i).copied()).collect();
+                        set.insert(v);
+                    }
+                    set.len()
+                };
+                let size = distinct(&right) * distinct(&left);
+                if size <= min_size {
+                    min_size = size;
+                    candidate = trial;
+                }
+            }
+            m.remove(&candidate);
+        }
+        m.into_iter().collect()
+    }
+
+    /// Reference model of the dual connector's value: the pre-summed part clamped to 16 bits plus
+    /// the other positions. Returns (value, pre-summed part before the clamp).
+    pub fn dual(&self, matrix_positions: &[usize], r: usize, l: usize) -> (i64, i64) {
+        let mut pre = 0;
+        let mut rest = 0;
+        for k in 0..self.k {
+            if matrix_positions.contains(&k) {
+                pre += self.cost_at(k, r, l);
+            } else {
+                rest += self.cost_at(k, r, l);
+            }
+        }
+        (pre.clamp(i64::from(i16::MIN), i64::from(i16::MAX)) + rest, pre)
+    }
+
+    /// (sum of the negative, sum of the positive) per-position costs of the pair: every partial
+    /// sum over a subset of the template positions lies between the two.
+    pub fn signed_sums(&self, r: usize, l: usize) -> (i64, i64) {
+        let (mut neg, mut pos) = (0, 0);
+        for k in 0..self.k {
+            let rf = if r == 0 {
+                Some("")
+            } else {
+                self.right[r - 1].get(k).map(|x| x.as_str())
+            };
+            let lf = if l == 0 {
+                Some("")
+            } else {
+                self.left[l - 1].get(k).map(|x| x.as_str())
+            };
+            if let (Some(rf), Some(lf)) = (rf, lf) {
+                if let Some(&c) = self.cost.get(&(rf.to_string(), lf.to_string())) {
+                    if c < 0 {
+                        neg += c;
+                    } else {
+                        pos += c;
+                    }
+                }
+            }
+        }
+        (neg, pos)
+    }
     pub fn num_right(&self) -> usize {
         self.right.len() + 1
     }
@@ -141,6 +268,9 @@ impl Scenario for BigramScenario {
             max_lex: 12,
             max_dim: 7,
             big_dim_one_in: 40,
+            big_costs_one_in: 5,
+            huge_dim_one_in: 0,
+            extreme_ids_one_in: 1500,
         };
         // template counts around the SIMD width get extra weight
         let mut cfg = cfg;
@@ -151,7 +281,11 @@ impl Scenario for BigramScenario {
         }
         let info = gen_world(rng, &mut plan, &cfg);
         plan.set_file("probes", gen_probes(&mut rng.fork(), &info.surfaces, 4).join("\n"));
-        let n_seeds = 2 + rng.usize(7);
+        let n_seeds = if info.num_left.max(info.num_right) >= 65535 {
+            1 // each build of such a world takes seconds
+        } else {
+            2 + rng.usize(7)
+        };
         plan.ops.push(Op::new("Raw"));
         plan.ops.push(Op::new("Dual").n(&[0])); // ascending trial order
         for _ in 0..n_seeds {
@@ -198,6 +332,9 @@ impl Scenario for BigramScenario {
                             }
                         }
                     }
+                    if nr.max(nl) > 65535 {
+                        ctx.count("probe.id_65535_in_use");
+                    }
                     if reference.k < 8 {
                         ctx.count("probe.k_lt_8");
                     } else if reference.k == 8 {
@@ -231,6 +368,34 @@ impl Scenario for BigramScenario {
                     let (_, o) = observe(d, &probes, true);
                     let o = o.map_err(|p| panic_violation("C07.dual.observe", "observing the dual dictionary", &p))?;
                     ctx.observations += 1;
+                    // the executable reference model of the dual connector: same split, pre-summed
+                    // part clamped once to 16 bits, the other positions added
+                    let matrix_positions = reference.split(seed);
+                    let mut clamped = false;
+                    for r in 0..nr {
+                        for l in 0..nl {
+                            let (want, pre) = reference.dual(&matrix_positions, r, l);
+                            clamped |= pre < i64::from(i16::MIN) || pre > i64::from(i16::MAX);
+                            let got = i64::from(o.costs[r * nl + l]);
+                            if got != want {
+                                return Err(Violation::new(
+                                    "C07.dual_vs_model",
+                                    format!(
+                                        "dual connector (template trial order seed {seed}, K={}, pre-summed positions {matrix_positions:?}): cost(right={r}, left={l}) = {got}; pre-summed part {pre} clamped to 16 bits plus the other positions gives {want} (defining sum {})",
+                                        reference.k,
+                                        reference.sum(r, l)
+                                    ),
+                                ));
+                            }
+                        }
+                    }
+                    if clamped {
+                        // outside "whenever the pre-summed part fits in 16 bits": the values were
+                        // checked against the model above; tokenizations may legitimately differ
+                        ctx.count("probe.presum_outside_16_bits");
+                        ctx.event(&op.brief(), "equals the clamped model");
+                        continue;
+                    }
                     if let Some(diff) = diff_obs(raw, &o, &probes) {
                         return Err(Violation::new(
                             "C07.dual_vs_raw",
@@ -241,6 +406,15 @@ impl Scenario for BigramScenario {
                 }
                 "Matrix" => {
                     let Some(raw) = raw_obs.as_ref() else { continue };
+                    // matrix.def holds 16-bit costs and a 16-bit header: worlds with larger sums or
+                    // with 65536 ids on a side have no matrix form
+                    if nr > 65535 || nl > 65535 {
+                        continue;
+                    }
+                    if (0..nr).any(|r| (0..nl).any(|l| i16::try_from(reference.sum(r, l)).is_err())) {
+                        ctx.count("probe.sum_outside_16_bits");
+                        continue;
+                    }
                     // matrix.def materialised from the defining sums
                     let mut m = format!("{nr} {nl}\n");
                     for r in 0..nr {
@@ -291,6 +465,8 @@ impl Scenario for BigramScenario {
                 "probe.bos_line",
                 "probe.eos_line",
                 "probe.two_distinct_splits",
+                "probe.presum_outside_16_bits",
+                "probe.id_65535_in_use",
             ],
         }
     }
